@@ -92,8 +92,9 @@ func (fx *fixture) activate(e *sim.Env) {
 }
 
 type blockRes struct {
-	Panic bool   `json:"panic"`
-	Err   string `json:"err"`
+	Panic    bool   `json:"panic"`
+	Err      string `json:"err"`
+	LendPaid bool   `json:"lendPaid"` // the books of a lend reward program moved in this block (observation, used to key a known finding)
 }
 
 // ---------------------------------------------------------------------------------------------------------
@@ -337,9 +338,22 @@ func (fx *fixture) applyModelEdge(r *runner, e *sim.Env, parent int, ed *edge) i
 // block = EndBlock at the current time, then BeginBlock dt later; both halves are logged.
 func (fx *fixture) block(r *runner, e *sim.Env, parent int, dt time.Duration) int {
 	br := endBlock(e)
-	id := r.node(parent, "EndBlock", nil, blockRes{br.Panic, br.Err}, fx.project(e))
+	pre := fx.project(e)
+	id := r.node(parent, "EndBlock", nil, blockRes{Panic: br.Panic, Err: br.Err}, pre)
 	br = beginBlock(e, dt)
-	return r.node(id, "BeginBlock", map[string]interface{}{"dt": int64(dt / time.Second)}, blockRes{br.Panic, br.Err}, fx.project(e))
+	post := fx.project(e)
+	lendPaid := false
+	for _, x := range post.Ext {
+		if x.Kind != "lend" {
+			continue
+		}
+		for _, y := range pre.Ext {
+			if y.Kind == "lend" && y.ID == x.ID && (y.Neg != x.Neg || fmt.Sprint(y.Avail) != fmt.Sprint(x.Avail)) {
+				lendPaid = true
+			}
+		}
+	}
+	return r.node(id, "BeginBlock", map[string]interface{}{"dt": int64(dt / time.Second)}, blockRes{Panic: br.Panic, Err: br.Err, LendPaid: lendPaid}, post)
 }
 
 func must(err error) {
